@@ -5,6 +5,7 @@ package main
 import (
 	"fmt"
 	"go/token"
+	"strings"
 	"go/types"
 	"math"
 )
@@ -416,6 +417,14 @@ func opaqueStrBinop(fr *frame, op token.Token, o *opaqueStr, other value) value 
 		if s, ok := other.(string); ok && s == "" {
 			// an opaque (formatted) string is treated as non-empty
 			return op == token.NEQ
+		}
+		// Sprintf with a literal format: the result starts with the format's
+		// text up to the first verb, so it cannot equal a string that does not
+		if s, ok := other.(string); ok && strings.HasPrefix(o.src, "Sprintf(") && strings.HasSuffix(o.src, ")") {
+			f := o.src[len("Sprintf(") : len(o.src)-1]
+			if k := strings.IndexByte(f, '%'); k > 0 && !strings.HasPrefix(s, f[:k]) {
+				return op == token.NEQ
+			}
 		}
 	}
 	panic(engineErr{"UNSUPPORTED inspection of opaque string (" + o.src + ") op " + op.String()})
